@@ -1542,8 +1542,64 @@ class C17(OutcomeCheck):
         return tls_trace_check(fam, lines)
 
 
+
+def fut_trace_check(fam, lines):
+    """block_on re-polls only after a wake-up or the one modelled spurious return:
+    per block_on call, polls - 1 <= wake calls started so far + 1 (a wake call has
+    started once the operation before it in its thread has completed)."""
+    viol = []
+    for i, p in fam.parsed.items():
+        raw = [l for l in fam.impl[i]["lines"] if not l.startswith("API ")]
+        bodies = [[o.strip() for o in b.split(";") if o.strip()] for b in lines[i].split("|")[3:]]
+        bad = None
+        n = 0
+        polls = {}
+        done_pc = {}
+        spawned = {0}
+        for l in raw:
+            w = l.split()
+            if w[0] == "BEGIN":
+                polls, done_pc, spawned = {}, {}, {0}
+                n += 1
+            elif w[0] == "P":
+                k = (int(w[1]), int(w[2]))
+                polls[k] = polls.get(k, 0) + 1
+                started = 0
+                for b in spawned:
+                    nxt = done_pc.get(b, -1) + 1
+                    for pc, o in enumerate(bodies[b]):
+                        if o.split()[0] == "wk" and pc <= nxt:
+                            started += 1
+                if polls[k] - 1 > started + 1:
+                    bad = f"iteration {n}: block_on at {k} polled {polls[k]} times with only {started} wake calls started"
+            elif w[0] == "O":
+                b, pc = int(w[1]), int(w[2])
+                done_pc[b] = pc
+                if b < len(bodies) and pc < len(bodies[b]) and bodies[b][pc].split()[0] == "sp":
+                    spawned.add(int(bodies[b][pc].split()[1]))
+        if bad:
+            viol.append({"prog": lines[i], "deviation": "futures:" + bad})
+    return viol
+
+
+class C20(OutcomeCheck):
+    technique = "Coq model of block_on / AtomicWaker as derived programs over Notify, Arc and Mutex + Notify lemmas + whole-run correspondence (features futures) + outcome oracle + re-poll trace check"
+    rule = "F-fut: one blocked future (poll = check, register with an AtomicWaker, re-check) and 1-2 waking threads: wake before/after/during poll and registration, lost and missing wakes, two futures in sequence"
+    level_text = ("block_on and AtomicWaker::register/wake/take_waker are modelled as the sequences of rt operations their source performs (Notify(false,true) inside a loom Arc, waker clone/drop as RefInc/RefDec, "
+                  "rt::Mutex(false) with try-acquire on register); every decision, poll and result is compared with the implementation built with the futures feature. R: a future blocked in block_on completes iff "
+                  "its value can be read, after a wake-up or once spuriously; a run where no wake can arrive deadlocks. Proved: the Notify lemmas of C08 (a wait completes only with the flag set, notify publishes), "
+                  "fresh state per iteration. On traces: polls - 1 <= completed wake-ups + 1 for every block_on.")
+    level_note = "partial: correspondence + oracle on the bounded core; the AtomicWaker protocol theorem over all interleavings is not proved"
+    ref_mode = "refw"
+    det_family = lambda self, ctx: gen.fam_fut_core(ctx.tier)
+    rnd_family = lambda self, ctx: []
+
+    def extra(self, ctx, fam, lines):
+        return fut_trace_check(fam, lines)
+
+
 HOOK_COMMITS = ["8f72140"]
-FIX_COMMITS = ["4a97b3f", "e9415b5", "1d4f62f", "36c0d26", "7942235", "13413be", "756d098"]
+FIX_COMMITS = ["4a97b3f", "e9415b5", "1d4f62f", "36c0d26", "7942235", "13413be", "756d098", "cac202b"]
 NOT_CLAIMED = {}
 REGISTRY = {"C14": C14(), "C01": C01(), "C05": C05(), "C07": C07(), "C08": C08(), "C09": C09(),
-            "C10": C10(), "C11": C11(), "C18": C18(), "C12": C12(), "C15": C15(), "C19": C19(), "C13": C13(), "C06": C06(), "C16": C16(), "C02": C02(), "C03": C03(), "C04": C04(), "C17": C17()}
+            "C10": C10(), "C11": C11(), "C18": C18(), "C12": C12(), "C15": C15(), "C19": C19(), "C13": C13(), "C06": C06(), "C16": C16(), "C02": C02(), "C03": C03(), "C04": C04(), "C17": C17(), "C20": C20()}
